@@ -29,7 +29,8 @@ REQUIRED_COUNTERS = ['stats_files_checked', 'cluster_gene_cells_checked',
                      'runs_with_copy_data_over',
                      'same_named_files_copied_to_scratch',
                      'merges_checked', 'boundary_cpm_equal_one_entries',
-                     'unlabelled_cells']
+                     'unlabelled_cells',
+                     'csc_references_with_over_65536_genes']
 RULE = ('case = labelled reference matrix (clusters of one cell, unlabelled '
         'cells, cells of a cluster scattered over files and chunks, entries '
         'with CPM exactly 1) x ~4 (quick) / ~8 (thorough) partitions: entry '
@@ -59,6 +60,12 @@ def gen_cases(tier, seed):
             cases.append({'seed': int(rng.integers(2 ** 31)),
                           'n_partitions': 3, 'raw': True,
                           'x_dtype': 'int32', 'big': 'huge'})
+    # few cells, more than 65 536 genes (16-bit column indices), stored
+    # values in the genes beyond 65 535; CSC / CSR / dense in turn
+    for _ in range(1 if tier == 'quick' else 4):
+        cases.append({'seed': int(rng.integers(2 ** 31)),
+                      'n_partitions': 3, 'raw': False,
+                      'x_dtype': 'float64', 'big': 'wide'})
     for i in range(n):
         cases.append({'seed': int(rng.integers(2 ** 31)),
                       'n_partitions': 4 if tier == 'quick' else 8,
@@ -94,6 +101,9 @@ def make_dataset(rng, raw, x_dtype, big=False):
     if big == 'huge':
         n_genes = 2
         n_cells = int(rng.integers(95000, 105000))
+    if big == 'wide':
+        n_genes = 65536 + int(rng.integers(3, 300))
+        n_cells = int(rng.integers(max(3, k), 11))
     genes = gen.gene_names(rng, n_genes)
     # labels: every leaf at least one cell when possible; some unlabelled
     leaves = model.leaves
@@ -138,6 +148,13 @@ def make_dataset(rng, raw, x_dtype, big=False):
                     row[j3] = 2 * m
                     row[j2] = rest - 2 * m
                 X[i] = row
+    elif big == 'wide':
+        X = np.zeros((n_cells, n_genes))
+        for i in range(n_cells):
+            js = rng.integers(0, n_genes, size=30)
+            X[i, js] = rng.uniform(0.5, 12, size=30)
+            X[i, int(rng.integers(65536, n_genes))] = 3.0 + i
+            X[i, n_genes - 1] = 1.0
     else:
         X = rng.uniform(0, 12, size=(n_cells, n_genes))
         X[rng.random(X.shape) < 0.4] = 0
@@ -331,6 +348,12 @@ def run_case(spec, work):
         if spec.get('big') == 'huge':
             rat = int(rng.choice([5000, 9000, n_cells // 3]))
             n_proc = int(rng.integers(2, 5))
+        wide = spec.get('big') == 'wide'
+        if wide:
+            enc = ['csc', 'csr', 'dense'][pi % 3]
+            rat = int(rng.choice([2, n_cells]))
+            if enc == 'csc':
+                ctx.bump('csc_references_with_over_65536_genes')
         out = work / f'stats_{pi}.h5'
         what = (f'entry={entry} encoding={enc} rows_at_a_time={rat} '
                 f'n_processors={n_proc} cells={n_cells} genes={len(genes)} '
@@ -415,8 +438,9 @@ def run_case(spec, work):
                             p = work / f'donor_{pi}_{fi}' / 'expression.h5ad'
                         mapworld.write_h5ad(
                             p, X[idx], [cells[i] for i in idx], genes,
-                            encoding=str(rng.choice(['dense', 'csr',
-                                                     'csc'])))
+                            encoding=('csc' if wide else
+                                      str(rng.choice(['dense', 'csr',
+                                                      'csc']))))
                         paths.append(p)
                     m2 = gen.TaxModel(model.hierarchy, model.nodes,
                                       model.parent)
